@@ -100,14 +100,16 @@ package util
 //@   ensures [wf] rwf(rd)
 //@ func ReadStringMax
 //@   props C03
-//@   requires rwf(rd) && max >= 0 && max <= 0x10000000
+//@   requires rwf(rd)
+//@   requires [max-in-range] max >= 0 && max <= 0x200000
 //@   at-call ReadVarInt as l
 //@   at-call readStringMax as body: assert res(l, 1) == nil && arg0 == rd && arg1 == max && arg2 == res(l, 0)
 //@   ensures [length-prefix-then-body] called(l) && (res(l, 1) != nil ==> result.1 != nil && !called(body))
 //@   ensures [wf] rwf(rd)
 //@ func readStringMax
 //@   props C03
-//@   requires rwf(rd) && max >= 0 && max <= 0x10000000
+//@   requires rwf(rd)
+//@   requires [max-in-range] max >= 0 && max <= 0x200000
 //@   at-call ReadFull as fill: assert [guards-before-allocation] length >= 0 && length <= max * 4 && len(arg1) == length
 //@   ensures [negative-or-oversized-rejected] (length < 0 || length > max * 4) ==> result.1 != nil && !called(fill)
 //@   ensures [truncation-is-an-error] length >= 0 && length <= max * 4 ==> ((result.1 == nil) == (old(rem(rd)) >= length))
@@ -116,6 +118,7 @@ package util
 //@ func ReadBytesLen
 //@   props C03
 //@   requires rwf(rd)
+//@   requires [max-in-range] maxLength <= 0x800000
 //@   at-call ReadVarInt as l
 //@   at-call ReadFull as fill: assert [guards-before-allocation] res(l, 1) == nil && res(l, 0) >= 0 && res(l, 0) <= maxLength && len(arg1) == res(l, 0)
 //@   ensures [negative-or-oversized-rejected] called(l) && (res(l, 1) != nil || res(l, 0) < 0 || res(l, 0) > maxLength) ==> err != nil && !called(fill)
@@ -204,3 +207,19 @@ package util
 //@   loop 1: invariant rwf(rd)
 //@   at-call ReadVarInt#1 as count
 //@   at-call ReadVarInt#2 as item: assert [negative-count-rejected] res(count, 1) == nil && res(count, 0) >= 0
+
+// ---- C05: panic containment ----------------------------------------------------------------------------------------
+//@ recovers-errors RecoverFunc ; props C05
+// The panicking string readers bound their allocation through ReadStringMax: the caller's maximum must itself be small.
+//@ func PReadStringMax
+//@   props C05
+//@   errpanics
+//@   checks panic alloc
+//@   requires rwf(rd)
+//@   requires [max-in-range] max >= 0 && max <= 0x200000
+//@ func (*PReader).StringMax
+//@   props C05
+//@   errpanics
+//@   checks panic alloc
+//@   requires rwf(r.r)
+//@   requires [max-in-range] max >= 0 && max <= 0x200000
